@@ -35,6 +35,12 @@ func (c13) Components() map[string][]string {
 	return map[string][]string{"real": {"emulator/bus.Bus Attach/EaRead/EaWrite/EaDump (instrumented copy)"}, "stub": {"SimMem devices stand in for memory.RAM/ROM so that the address each device receives is observable"}}
 }
 
+// attachName: the label given to Attach is informational; typical ones are used.
+func attachName(dev int, start uint32) string {
+	names := []string{"rom", "ram", "sram", "wram", "io", "", "ROM", "dev"}
+	return names[(uint32(dev)+start>>4)%uint32(len(names))]
+}
+
 func (c13) Gen(r *sim.Rand, tier string, run uint64) *sim.Scenario {
 	sc := &sim.Scenario{Cfg: map[string]int64{}}
 	ndev := r.Range(1, 6)
@@ -284,7 +290,7 @@ func (c13) Exec(sc *sim.Scenario, env *sim.Env) *sim.Violation {
 				// the range [s,e] is empty: nothing may be routed by it (every later op checks the
 				// routing against the unchanged model); mis-aligned bounds must still be rejected
 				var aerr error
-				p, pv := sim.RecoverLib(func() { aerr = b.Attach(devs[dev], fmt.Sprintf("dev%d", dev), s, e) })
+				p, pv := sim.RecoverLib(func() { aerr = b.Attach(devs[dev], attachName(dev, s), s, e) })
 				env.ObsBool(p)
 				if p {
 					return &sim.Violation{Oracle: "attach_panic", Step: i, Msg: fmt.Sprintf("Attach(%06x,%06x) panicked: %s", s, e, sim.PanicString(pv))}
@@ -315,7 +321,7 @@ func (c13) Exec(sc *sim.Scenario, env *sim.Env) *sim.Violation {
 				m = reals[dev].mem
 				st.Probe("library_memory_attached")
 			}
-			p, pv := sim.RecoverLib(func() { aerr = b.Attach(m, fmt.Sprintf("dev%d", dev), s, e) })
+			p, pv := sim.RecoverLib(func() { aerr = b.Attach(m, attachName(dev, s), s, e) })
 			env.ObsBool(p)
 			env.ObsBool(aerr != nil)
 			if p {
